@@ -64,7 +64,13 @@ def addition_loop_variable(t, where, resolve):
     return any(x.kind == 'seqof' for x in subs) and any(x.kind == 'seq' and getattr(x, 'additions', None) for x in subs)
 
 
+def additions_multiple_of_8(t, where, resolve):
+    """SEQUENCE with 8, 16, ... known extension additions (cannot skip a newer version's additions)."""
+    return where == 'type' and t.kind == 'seq' and bool(getattr(t, 'additions', None)) and len(t.additions) % 8 == 0
+
+
 REGIONS = {
+    'oer-additions-multiple-of-8': additions_multiple_of_8,
     'oer-addition-loop-variable': addition_loop_variable,
     'oer-octets-fixed-default': c09_regions.octets_fixed_default,
     'oer-octets-default-name-clash': c09_regions.octets_default_name_clash,
